@@ -16,11 +16,7 @@ Theorem read_returns_complete_value : forall k init writes nr sched e,
   In e (log (run k write_prog read_prog (init_state seq_init init [writes] nr) sched)) ->
   exists c, (c <= e_done e)%nat /\ (e_done e <= length writes)%nat /\
             e_val e = value init writes c.
-Proof.
-  intros k init writes nr sched e Hi Hw Hin.
-  destruct (all_reads_ok k init writes Hi Hw nr sched e Hin) as (c & Hc & Hd & Hv).
-  exists c. repeat split; [lia | exact Hd | exact Hv].
-Qed.
+Proof. exact read_complete_all. Qed.
 Print Assumptions read_returns_complete_value.
 
 (* ... and it is not stale: e_c0 e is the number of write calls that had completed when this
@@ -31,11 +27,7 @@ Theorem read_not_stale : forall k init writes nr sched e,
   length init = k -> Forall (fun v => length v = k) writes ->
   In e (log (run k write_prog read_prog (init_state seq_init init [writes] nr) sched)) ->
   exists c, (e_c0 e <= c <= e_done e)%nat /\ e_val e = value init writes c.
-Proof.
-  intros k init writes nr sched e Hi Hw Hin.
-  destruct (all_reads_ok k init writes Hi Hw nr sched e Hin) as (c & Hc & Hd & Hv).
-  exists c. split; [exact Hc | exact Hv].
-Qed.
+Proof. exact read_not_stale_all. Qed.
 Print Assumptions read_not_stale.
 
 (* the decidable checker evaluated on the implementation's read returns means exactly that *)
